@@ -705,3 +705,19 @@ async fn handle_task_with_signals<F: Future<Output = tako::Result<TaskResult>>>(
         }
     }
 }
+
+/// Verification hook: the resource related environment variables that a task is given
+/// for its allocation (what `build_program_task` inserts via `insert_resources_into_env`).
+#[cfg(feature = "verif")]
+pub fn verif_resources_env(ctx: &TaskBuildContext) -> tako::Map<BString, BString> {
+    let mut program = ProgramDefinition {
+        args: Vec::new(),
+        env: Default::default(),
+        stdout: Default::default(),
+        stderr: Default::default(),
+        stdin: Vec::new(),
+        cwd: Default::default(),
+    };
+    insert_resources_into_env(ctx, &mut program);
+    program.env
+}
